@@ -269,11 +269,20 @@ Proof.
 Qed.
 
 (* ---------------- every operation, then every history ---------------- *)
+Lemma step_drain_nth b n : Inv b ->
+  exists b' v, step b (ODrainNth n) = Ok (b', v) /\ Inv b' /\ max_len b' = max_len b /\
+               spec_step (max_len b) (abs b) (ODrainNth n) = (abs b', obs_abs v).
+Proof.
+  intros I. unfold step. destruct (drain_refines (S n) b I) as [b' [-> [I' [C Ha]]]]. cbn [bind fst snd catch].
+  exists b', (VOpt (nth_error (firstn (S n) (abs b)) n)). cbn [spec_step obs_abs]. rewrite Ha.
+  rewrite nth_error_firstn. destruct (Nat.ltb_spec n (S n)); [|lia]. auto.
+Qed.
+
 Theorem step_refines b o : Inv b ->
   exists b' v, step b o = Ok (b', v) /\ Inv b' /\ max_len b' = max_len b /\
                spec_step (max_len b) (abs b) o = (abs b', obs_abs v).
 Proof.
-  intros I. destruct o as [x| |i|i x|i|i x| | |f|k|xs| | | | ]; unfold step; simpl.
+  intros I. destruct o as [x| |i|i x|i|i x| | |f|k|xs| | | | |n|n| | ]; try (apply step_drain_nth; exact I); unfold step; simpl.
   - destruct (push_refines b x I) as [b' [r [-> [I' [C Hq]]]]]. simpl.
     exists b', (VOpt r). rewrite Hq. auto.
   - destruct (pop_refines b I) as [b' [r [-> [I' [C Hq]]]]]. simpl.
@@ -296,6 +305,9 @@ Proof.
   - exists b, (VBool (is_empty b)). unfold is_empty. rewrite abs_length; auto.
   - exists b, (VBool (is_full b)). unfold is_full. rewrite abs_length; auto.
   - exists b, (VNat (max_len b)). auto.
+  - rewrite (iter_refines b I). simpl. eauto 10.
+  - rewrite (iter_refines b I). simpl. eauto 10.
+  - rewrite (iter_refines b I). simpl. eauto 10.
 Qed.
 
 Theorem run_refines ops : forall b, Inv b ->
